@@ -18,16 +18,16 @@
                              read_object returns for an Array token                     (map_ok)
    Measure: the number of tokens of the range (msz adds the remainder of an array read as an object).
 
-   FINDING (about the MODEL's fuel, not the Rust code): TextDeTape.tape_fuel = 2 * length t + shape_size sh + 8
-   is NOT always sufficient.  deserialize_seq on a Header value (`rgb { .. }`) yields a sequence whose
-   first element is the header token itself (read_array returns (vi, next_idx (S vi))), so a shape
-   ShSeq (ShSeq (.. )) deserialized at a header costs TWO levels of fuel (de + seq_all) per level of the
-   shape without advancing in the tape.  Counterexample [tape_fuel_insufficient] below: the input
-   `a=rgb{{}}` with the shape ShMap (ShSeq^16 ShIgn) gives OutOfFuel with tape_fuel and Ok with fuel 200
-   (the Rust code has no fuel: its recursion is bounded by the static type).
-   Hence [deser_tape_text_ok_partial] needs seq_extra t sh <= 4 (no Header token in the tape, or Seq / Tuple
-   nesting depth at most 4); [deser_tape_text_nopanic] (never Panic / OOB) is unconditional; with a fuel of
-   2 * length t + 2 * shape_size sh + 4 the walk never runs out ([de_root_text_ok_2size]). *)
+   FINDING (about the MODEL's fuel, not the Rust code; REPAIRED in TextDeTape.v): the original
+   tape_fuel = 2 * length t + shape_size sh + 8 was NOT always sufficient.  deserialize_seq on a Header value
+   (`rgb { .. }`) yields a sequence whose first element is the header token itself (read_array returns
+   (vi, next_idx (S vi))), so a shape ShSeq (ShSeq (.. )) deserialized at a header costs TWO levels of fuel
+   (de + seq_all) per level of the shape without advancing in the tape.  Counterexample
+   [old_tape_fuel_insufficient] below: the input `a=rgb{{}}` with the shape ShMap (ShSeq^16 ShIgn) gives
+   OutOfFuel with the old fuel and Ok with the present one (the Rust code has no fuel: its recursion is bounded
+   by the static type; replayed on the implementation: a value, release and debug).
+   tape_fuel is now 2 * length t + 2 * shape_size sh + 8, for which [deser_tape_text_ok] holds without any
+   side condition ([de_root_text_ok_2size]); the finer bound with seq_extra is kept ([de_root_text_ok]). *)
 From JV.proofs Require Import SwarLanes NoCrashWalk NoCrashTextDe DomProofs.
 From JV Require Dom TextTape.
 From JV.proofs Require TextTapeGrammarProofs.
@@ -887,18 +887,45 @@ Proof.
   eapply gd2_mono; [apply (de_root_text_ok decode parse_f64 fo sh t _ Hdec WF)|intros []|intros; exact I].
 Qed.
 
-(* (2) ... and does not run out of its own fuel (tape_fuel = 2 * length t + shape_size sh + 8) when
-   seq_extra t sh <= 4, i.e. when the tape has no Header token, or ShSeq / ShTup are nested at most 4 deep.
-   GAP to the intended statement (gd2 true True for EVERY tape and shape): the hypothesis seq_extra t sh <= 4.
-   It cannot be dropped: see [tape_fuel_insufficient]. *)
-Theorem deser_tape_text_ok_partial decode parse_f64 fo sh t :
-  (forall raw, wfl (cow_bytes (decode raw))) -> TapeWf.tape_wf t -> seq_extra t sh <= 4 ->
+(* (2) ... and never runs out of its own fuel tape_fuel = 2 * length t + 2 * shape_size sh + 8: the full statement *)
+Theorem deser_tape_text_ok decode parse_f64 fo sh t :
+  (forall raw, wfl (cow_bytes (decode raw))) -> TapeWf.tape_wf t ->
   gd2 true True (fun _ => True) (TextDeTape.deser_tape decode parse_f64 fo sh t).
 Proof.
-  intros Hdec WF Hd. unfold deser_tape, tape_fuel.
+  intros Hdec WF. unfold deser_tape, tape_fuel.
+  eapply gd2_mono; [apply (de_root_text_ok_2size decode parse_f64 fo sh t _ Hdec WF)| |intros; exact I].
+  intros _. lia.
+Qed.
+
+Theorem deser_tape_text_parse_ok decode parse_f64 fo sh input :
+  (forall raw, wfl (cow_bytes (decode raw))) ->
+  match TextTape.parse input with
+  | Ok (t, _) => gd2 true True (fun _ => True) (TextDeTape.deser_tape decode parse_f64 fo sh t)
+  | _ => True
+  end.
+Proof.
+  intros Hdec. destruct (TextTape.parse input) as [[t bom]| | | |] eqn:E; try exact I.
+  apply deser_tape_text_ok; [exact Hdec|]. exact (JV.proofs.TextTapeGrammarProofs.parse_tape_wf input t bom E).
+Qed.
+
+(* the finer bound (kept): the ORIGINAL fuel 2 * length t + shape_size sh + 8 suffices when seq_extra t sh <= 4,
+   i.e. when the tape has no Header token or ShSeq / ShTup are nested at most 4 deep; the hypothesis could not be
+   dropped for that fuel ([old_tape_fuel_insufficient]) *)
+Theorem de_root_old_fuel_ok decode parse_f64 fo sh t :
+  (forall raw, wfl (cow_bytes (decode raw))) -> TapeWf.tape_wf t -> seq_extra t sh <= 4 ->
+  gd2 true True (fun _ => True)
+      (TextDeTape.de_root decode parse_f64 fo t (2 * length t + TextDeCommon.shape_size sh + 8) sh 0 (length t)).
+Proof.
+  intros Hdec WF Hd.
   eapply gd2_mono; [apply (de_root_text_ok decode parse_f64 fo sh t _ Hdec WF)| |intros; exact I].
   intros _. lia.
 Qed.
+
+(* implied by deser_tape_text_ok since the repair of tape_fuel; kept because the objreader theorem is stated with it *)
+Theorem deser_tape_text_ok_partial decode parse_f64 fo sh t :
+  (forall raw, wfl (cow_bytes (decode raw))) -> TapeWf.tape_wf t -> seq_extra t sh <= 4 ->
+  gd2 true True (fun _ => True) (TextDeTape.deser_tape decode parse_f64 fo sh t).
+Proof. intros Hdec WF _. apply deser_tape_text_ok; assumption. Qed.
 
 Corollary deser_tape_text_ok_noheader decode parse_f64 fo sh t :
   (forall raw, wfl (cow_bytes (decode raw))) -> TapeWf.tape_wf t -> has_header t = false ->
@@ -939,10 +966,11 @@ Definition cex_dec (raw : bytes) : cow := Borrowed raw.
 Definition cex_pf (raw : bytes) : outcome N := Err 1%N.
 Definition cex_fo : fops := mkfops (fun x => x) (fun x => x) (fun _ => 0%N) (fun _ => 0%N).
 
-Example tape_fuel_insufficient :
+Definition old_tape_fuel (sh : shape) (t : ttape) : nat := 2 * length t + TextDeCommon.shape_size sh + 8.
+Example old_tape_fuel_insufficient :
   TextTape.parse cex_input = Ok (cex_tape, false) /\
-  TextDeTape.deser_tape cex_dec cex_pf cex_fo cex_shape cex_tape = OutOfFuel /\
-  is_ok (TextDeTape.de_root cex_dec cex_pf cex_fo cex_tape 200 cex_shape 0 (length cex_tape)) = true /\
+  TextDeTape.de_root cex_dec cex_pf cex_fo cex_tape (old_tape_fuel cex_shape cex_tape) cex_shape 0 (length cex_tape) = OutOfFuel /\
+  is_ok (TextDeTape.deser_tape cex_dec cex_pf cex_fo cex_shape cex_tape) = true /\
   seq_extra cex_tape cex_shape = 16.
 Proof. repeat split; vm_compute; reflexivity. Qed.
 
@@ -966,11 +994,11 @@ Qed.
 Theorem deser_objreader_text_ok decode parse_f64 fo sh t k :
   (forall raw, wfl (cow_bytes (decode raw))) -> TapeWf.tape_wf t ->
   match k with
-  | None => gd2 true (seq_extra t sh <= 4) (fun _ => True) (TextDeTape.deser_objreader decode parse_f64 fo sh t None)
+  | None => gd2 true True (fun _ => True) (TextDeTape.deser_objreader decode parse_f64 fo sh t None)
   | Some k' =>
       exists o, nth_field t (S (length t)) k' 0 (length t) = Ok o /\
         match o with
-        | Some _ => gd2 true (seq_extra t sh <= 4) (fun _ => True)
+        | Some _ => gd2 true True (fun _ => True)
                         (TextDeTape.deser_objreader decode parse_f64 fo sh t (Some k'))
         | None => TextDeTape.deser_objreader decode parse_f64 fo sh t (Some k') = Panic 9101%N
         end
@@ -978,7 +1006,7 @@ Theorem deser_objreader_text_ok decode parse_f64 fo sh t k :
 Proof.
   intros Hdec WF. destruct k as [k'|]; cbn [deser_objreader].
   2:{ unfold deser_tape, tape_fuel.
-      eapply gd2_mono; [apply (de_root_text_ok decode parse_f64 fo sh t _ Hdec WF)|intros Hd; lia|intros; exact I]. }
+      eapply gd2_mono; [apply (de_root_text_ok decode parse_f64 fo sh t _ Hdec WF)|intros _; pose proof (seq_extra_le t sh); lia|intros; exact I]. }
   destruct (map_ok_root t WF) as [Hm0 _].
   destruct (nth_field_total t WF (S (length t)) k' 0 (length t) Hm0 ltac:(lia)) as (o & E & Ho).
   exists o. split; [exact E|]. rewrite E. cbn [obind]. destruct o as [vi|]; [|reflexivity].
@@ -986,11 +1014,11 @@ Proof.
   destruct (nth_error t vi) as [tk|] eqn:K; [|apply nth_error_None in K; lia].
   rewrite (tget_some t vi tk K). cbn [obind].
   assert (Hgo : forall st en, map_ok t st en -> msz t st en <= length t ->
-            gd2 true (seq_extra t sh <= 4) (fun _ : dval => True)
+            gd2 true True (fun _ : dval => True)
                 (de_root decode parse_f64 fo t (tape_fuel sh t) sh st en)).
   { intros st en Hm Hsz.
     eapply gd2_mono; [apply (de_root_range_ok decode parse_f64 fo sh t _ st en Hdec WF Hm)| |intros; exact I].
-    intros Hd. unfold tape_fuel. lia. }
+    intros _. unfold tape_fuel. pose proof (seq_extra_le t sh). lia. }
   destruct tk; cbn [read_object]; try exact I.
   - destruct (map_ok_arr t WF _ _ _ K) as (M1 & M2 & M3 & M4). apply Hgo; [exact M1|lia].
   - destruct (map_ok_obj t WF _ _ _ K) as (M1 & M2 & M3 & M4). apply Hgo; [exact M1|lia].
@@ -999,4 +1027,5 @@ Qed.
 Print Assumptions deser_tape_text_parse.
 Print Assumptions deser_tape_text_ok_partial.
 Print Assumptions deser_objreader_text_ok.
-Print Assumptions tape_fuel_insufficient.
+Print Assumptions old_tape_fuel_insufficient.
+Print Assumptions deser_tape_text_ok.
